@@ -31,7 +31,10 @@ TRUSTED += [
     "translators/sharedstate.py (Python ast -> inventory of shared locations and write sites + their Gallina text); tied both ways "
     "to the live package on every run (every static location resolves, every live state-holding object has a static location)",
     "attribution of an observed write to a source statement: the line event preceding the event at which the change is seen",
-    "cdef globals of the .pyx modules are not Python attributes (cencoding specs/children tables): invisible to the monitor",
+    "cdef globals of the .pyx modules are not Python attributes (cencoding specs/children tables): invisible to the run-time monitor; "
+    "inventoried statically from the .pyx and the generated .c by a regex scan (stores at import time only), tied by the multi-threaded codec streams",
+    "translators/opreads.py: call graph by NAME and slots by attribute name (conservative for reads; a store into a computed subscript of a local "
+    "or parameter container names no slot and is left to the dynamic footprint); the order of reads in a row program is not the code's",
 ]
 
 BIG = 10 ** 9
@@ -288,7 +291,7 @@ def run(ctx):
     #      multi-switch / storm schedules, free-running threads, part writers - one job per (phase, dataset or chunk)
     fp_jobs, fp_state = footprint_jobs(ctx, datasets, rng, quick)
     base["broken"] = False
-    jobs = [dict(base, phase="corpus"), dict(base, phase="tree_model"), dict(base, phase="part_writers"),
+    jobs = [dict(base, phase="corpus"), dict(base, phase="tree_model"), dict(base, phase="part_writers"), dict(base, phase="native_codecs"),
             dict(base, phase="multi_switch", datasets=datasets)]
     fb = 42 if quick else 400
     for di, d in enumerate(datasets):
@@ -306,6 +309,7 @@ def run(ctx):
     lap("jobs")
     pq = C.Pqref()
     footprint_premise(ctx, pq, datasets, fp_jobs, [by_id[id(j)] for j in fp_jobs], fp_state)
+    op_table_tie(ctx, fp_state)
     pq.close()
     lap("footprint_check")
     if ctx.broken and not ctx.failures:
@@ -369,6 +373,49 @@ def static_inventory(ctx):
                               "patterns": {p_: sum(1 for s_ in inv["sites"] if s_["pattern"] == p_) for p_ in sharedstate.PATTERNS},
                               "static_offenders": [{k: s_[k] for k in ("file", "line", "func", "pattern", "base", "base_name", "target")} for s_ in bad][:20]}
     INV["static_bad"] = bad
+    # read side: per operation the slots it may read / write (call graph by name), the discipline obligation over reads AND
+    # writes re-proved on the regenerated table (C20_api_ops_disciplined on the regenerated table)
+    from translators import opreads
+    ores = opreads.run(C.REPO, ctx.gen_dir, inv)
+    ctx.extra["translator"]["opreads"] = {"status": ores["status"], "reason": ores.get("reason")}
+    if ores["status"] == "ok":
+        ok2, out2 = C.coqc(ores["file"], extra_q=[(ctx.gen_dir, "PqGen")])
+        if not ok2:
+            ctx.notes.append("translator_fallback: opreads: generated file rejected by coqc: %s" % out2[-300:])
+            ctx.extra["translator"]["opreads"]["status"] = "translator_fallback"
+        else:
+            ctx.coq_file(os.path.join(C.COQ, "genproofs", "GenOpReadsProofs.v"), extra_q=[(ctx.gen_dir, "PqGen")])
+            tab = ores["table"]
+            INV["optable"] = tab
+            ctx.extra["op_table"] = {"rows": {r_["op"]: {"functions": r_["functions"], "reads": len(r_["reads"]),
+                                                        "writes": sorted(set("%s:%s" % (w_["slot"], w_["pattern"]) for w_ in r_["writes"]))[:30]}
+                                              for r_ in tab["rows"]},
+                                     "slots": len(tab["slots"]), "offenders": ores["offenders"][:12],
+                                     "missing_entries": [e for r_ in tab["rows"] for e in r_["missing_entries"]]}
+            ctx.obligation("op table: every entry point of the operations of the quantifier exists in the source",
+                           not ctx.extra["op_table"]["missing_entries"], "entry points not found: %s" % ctx.extra["op_table"]["missing_entries"])
+            # offending (reader, writer, slot, site): a concrete divergent run is looked for at the writer's site
+            seen_sites = set()
+            for o_ in ores["offenders"]:
+                if o_["site"] in seen_sites:
+                    continue
+                seen_sites.add(o_["site"])
+                fn_, ln_ = o_["site"].rsplit(":", 1)
+                for s_ in inv["sites"]:
+                    if s_["file"] == fn_ and s_["line"] == int(ln_) and s_ not in bad:
+                        bad.append(s_)
+                        break
+    else:
+        ctx.notes.append("translator_fallback: opreads: %s" % ores.get("reason"))
+    # native modules: C-level module state from the .pyx and the generated .c
+    nat = sharedstate.native_state(C.REPO)
+    ctx.extra["native_state"] = nat
+    off = [g for g in nat["globals"] if g["pyx_stores_in_functions"] or (g.get("c_stores_outside_init") or 0) > 0]
+    ctx.obligation("native inventory: every module-level cdef / Python global of the .pyx modules is stored at import time only "
+                   "(no store inside a function of the .pyx, no store outside the module-init functions of the generated .c), "
+                   "and the .c holds no static buffer of its own", not off and not nat["foreign_static_buffers"],
+                   "written after import: %s; static buffers: %s" % (
+                       [(g["module"], g["name"], g["pyx_stores_in_functions"], g.get("c_store_functions")) for g in off], nat["foreign_static_buffers"]))
 
 
 REFUTED_BY = {"augmented": "C20_rmw_refuted / C20_rmw_lost_update_refuted", "rmw": "C20_rmw_refuted", "set_restore": "C20_set_restore_refuted",
@@ -487,6 +534,8 @@ def _job(job):
               stress(rec, datasets, rec.rng, quick, job["r0"], job["r1"])
           elif ph == "targeted":
               targeted_search(rec, datasets, rec.rng, quick, job["target"])
+          elif ph == "native_codecs":
+              native_codecs(rec, rec.rng, quick)
           elif ph == "site_search":
               site_search(rec, datasets, rec.rng, quick, job["target"])
           else:
@@ -628,12 +677,13 @@ def _fp_job(job):
             if isinstance(want, list) and want[:2] == ["EXC", "TimeoutError"] and "did not return within" in str(want[2]):
                 raise TimeoutError(want[2])
         except TimeoutError as e:
-            out.append((op, ["EXC", "TimeoutError", "alone: " + str(e)], [("start", {})], 0, 0, None, [], []))
+            out.append((op, ["EXC", "TimeoutError", "alone: " + str(e)], [("start", {})], 0, 0, None, [], [], []))
             break
         cover = set()
+        areads = set()
         try:
             res, changes, nlines, scr = with_alarm((600 if not job["quick"] else 180) if opc else 120,
-                                                   conc.trace_footprint, pf, op, None, None, conc.FULL_EVERY, opc, cover)
+                                                   conc.trace_footprint, pf, op, None, None, conc.FULL_EVERY, opc, cover, areads)
         except TimeoutError:
             # the operation returns when run alone (just checked): the monitor was too slow on this machine right now
             notes.append("footprint of %s (%s) not taken: the traced run exceeded its time budget" % (okey(op), phase))
@@ -644,7 +694,7 @@ def _fp_job(job):
             continue
         evs = [(k_, o_, n_, p_, (st["file"], st["line"], st["end_line"], st["func"]) if st else conc.tag_prev(changes[-1][0]))
                for k_, o_, n_, p_, st in conc.trace_events(changes, INV["idx"] or {})] if INV["idx"] is not None else []
-        out.append((op, conc.canon(res), changes, nlines, scr, want, evs, sorted(cover)))
+        out.append((op, conc.canon(res), changes, nlines, scr, want, evs, sorted(cover), sorted(areads)))
     return {"calls": [], "extra": {"footprints_skipped_slow": len(notes)}, "notes": notes, "value": out}
 
 
@@ -696,8 +746,10 @@ def footprint_premise(ctx, pq, datasets, jobs, results, state):
             if own != di or res_list is None:
                 continue
             phase = job["fp_phase"]
-            for ri, (op, got, changes, nlines, scr, want, evs, cover) in enumerate(res_list):
+            for ri, (op, got, changes, nlines, scr, want, evs, cover, areads) in enumerate(res_list):
                 all_events.append((phase, op, evs))
+                if areads:
+                    state.setdefault("attr_reads", {}).setdefault(ROW_OF.get(op["op"], op["op"]), set()).update(areads)
                 for fl in cover:
                     covered.setdefault(tuple(fl), []).append((di, op, phase))
                 kinds = conc.classify_trace(changes)
@@ -760,6 +812,30 @@ def footprint_premise(ctx, pq, datasets, jobs, results, state):
         ctx.extra["memo_keys_written"] = sorted(seen)[:60]
 
 
+ROW_OF = {"index": "slice", "slice_only": "slice", "slice_stats": "slice", "deepcopy": "copy"}
+
+
+def op_table_tie(ctx, state):
+    """tie of translators/opreads.py: every attribute the traced operations actually load as data (LOAD_ATTR instructions in
+    package frames, instruction-granular traces) must be in the regenerated read set of the operation's row"""
+    tab = INV.get("optable")
+    dyn = state.get("attr_reads") or {}
+    if tab is None or not dyn:
+        return
+    rows = {r_["op"]: set(r_["reads"]) for r_ in tab["rows"]}
+    missing, n = [], 0
+    for opk, attrs in sorted(dyn.items()):
+        if opk not in rows:
+            continue
+        n += len(attrs)
+        for a_ in sorted(attrs):
+            if a_ not in rows[opk] and (a_ + "[*]") not in rows[opk]:
+                missing.append("%s.%s" % (opk, a_))
+    ctx.extra.setdefault("op_table", {})["dynamic_attribute_loads_checked"] = n
+    ctx.obligation("op table tie: every attribute loaded by a traced operation is in the regenerated read set of its row (%d loads of %d rows)" % (n, len(dyn)),
+                   not missing, "loaded at run time but not in the static read set: %s" % missing[:15])
+
+
 def footprint_events(ctx, di, all_events, targets):
     """the decidable footprint condition of Conc/Footprint.v (extracted: conc_footprint_check) on the write events observed
     for this dataset over all traces: every write of every location is an idempotent publication (absent -> value, or the
@@ -784,6 +860,10 @@ def footprint_events(ctx, di, all_events, targets):
         ctx.obligation("footprint condition [ds%d]: extracted checker answered" % di, False, "pqref conc_footprint_check timed out or died")
         return
     ok_model = bool(out[0])
+    if len(out) > 2:
+        kd = ctx.extra.setdefault("observed_event_kinds", {"publish": 0, "same": 0, "change": 0, "remove": 0})
+        for nm, v_ in zip(("publish", "same", "change", "remove"), out[2]):
+            kd[nm] += int(v_)
     # the same condition evaluated in Python (model vs harness view of the same events)
     table, py_bad = {}, None
     for i, (phase, op, k_, o_, n_, p_, site) in enumerate(meta):
@@ -799,8 +879,10 @@ def footprint_events(ctx, di, all_events, targets):
     if not ok_model and out[1]:
         i = int(out[1][0][0])
         phase, op, k_, o_, n_, p_, site = meta[i]
-        detail = "event %d: location %s: %r -> %r during %s (%s) at %s, pattern %s%s" % (
-            i, k_, o_, n_, okey(op), phase, site, p_, (" - refuted by " + REFUTED_BY[p_]) if p_ in REFUTED_BY else "")
+        kind = "REMOVAL (Del: C20_removal_classified; confluent only for a Multi location whose readers do not read back: C20_del_invalidate_confluent / C20_del_readback_refuted)" \
+            if n_ is None else ("CHANGE" if o_ is not None and o_ != n_ else "publication")
+        detail = "event %d [%s]: location %s: %r -> %r during %s (%s) at %s, pattern %s%s" % (
+            i, kind, k_, o_, n_, okey(op), phase, site, p_, (" - refuted by " + REFUTED_BY[p_]) if p_ in REFUTED_BY else "")
         if site is not None and len(site) == 4 and phase.startswith("fresh"):
             targets.append({"di": di, "op": op, "site": list(site[:3]), "opcodes": phase.endswith("opcode"), "pattern": p_, "key": k_})
     ctx.obligation("footprint condition [ds%d]: every observed write of every inventory location is an idempotent publication at a "
@@ -1040,6 +1122,26 @@ def readers_of(key, site, covered, di):
                         out.append([fn, ln, op_])
                         break
     return out[:10]
+
+
+def native_codecs(ctx, rng, quick):
+    """tie of the native inventory: the module-level C state of cencoding / speedups is written at import time only (static
+    obligation), so the same codec functions called from N threads must produce the bytes they produce from one thread"""
+    rounds = 6 if quick else 30
+    for r in range(rounds):
+        nt = [2, 4, 8, 16, 3, 12][r % 6]
+        n = 80 if quick else 200
+        seq, thr = conc.codec_threads(nt, n)
+        case = {"mode": "codec", "threads": nt, "calls": n}
+        ctx.case(case)
+        ctx.count("codec.threads", nt)
+        ctx.extra["codec_stream_roundtrip_misses_sequential"] = ctx.extra.get("codec_stream_roundtrip_misses_sequential", 0) + sum(int(x.split(":")[1]) for x in seq)
+        if seq != thr:
+            badi = [i for i in range(nt) if seq[i] != thr[i]]
+            ctx.fail({"component": "native-codec", "op": "codec_stream", "symptom": "wrong-result" if not str(thr[badi[0]]).startswith("EXC") else "exception",
+                      "mode": "stress"}, dict(case, streams=badi, sequential=[seq[i] for i in badi], threaded=[thr[i] for i in badi]),
+                     "codec streams %s give other bytes from %d threads than alone: %r vs %r" % (badi, nt, [thr[i] for i in badi][:2], [seq[i] for i in badi][:2]))
+            break
 
 
 def site_search(ctx, datasets, rng, quick, target):
@@ -1457,6 +1559,17 @@ def replay(rep):
             for c in fails[:3]:
                 print("   ", str(c[1][2])[:300])
             return 1 if fails else 0
+        if mode == "codec":
+            bad = 0
+            for t in range(20):
+                seq, thr = conc.codec_threads(case["threads"], case["calls"])
+                if seq != thr:
+                    print("round %d: codec streams differ: %r vs %r -> PROPERTY FAILS" % (t, thr, seq))
+                    bad = 1
+                    break
+            if not bad:
+                print("20 rounds: every codec stream gives from %d threads the bytes it gives alone" % case["threads"])
+            return bad
         spec = case["dataset"]
         if mode == "part":
             bad = 0
